@@ -44,7 +44,8 @@ type pipeReader struct {
 	fastUntil   int   // before this offset reads are served in full (keeps long prefixes cheap)
 	sizes       []int // cycle of maximum chunk sizes; 0 = as much as asked
 	si          int
-	eofWithData bool // deliver io.EOF together with the last bytes (allowed by io.Reader)
+	eofWithData bool  // deliver io.EOF together with the last bytes (allowed by io.Reader)
+	endErr      error // what the end of the delivered bytes looks like: nil = io.EOF (closed), else e.g. a reset
 	reads       int
 	oneByte     int // reads that returned a single byte although more was asked for
 }
@@ -52,7 +53,7 @@ type pipeReader struct {
 func (r *pipeReader) Read(p []byte) (int, error) {
 	r.reads++
 	if r.pos >= len(r.data) {
-		return 0, io.EOF
+		return 0, r.end()
 	}
 	if len(p) == 0 {
 		return 0, nil
@@ -73,7 +74,14 @@ func (r *pipeReader) Read(p []byte) (int, error) {
 		r.oneByte++
 	}
 	if r.eofWithData && r.pos == len(r.data) {
-		return n, io.EOF
+		return n, r.end()
 	}
 	return n, nil
+}
+
+func (r *pipeReader) end() error {
+	if r.endErr != nil {
+		return r.endErr
+	}
+	return io.EOF
 }
